@@ -416,7 +416,7 @@ def run_check(pid, tier, report_as=None):
         if drv and os.path.exists(os.path.join(work, "cases.txt")):
             exe = os.path.join(WORK, "ocaml", drv["name"], "driver")
             tm = time.time()
-            rc, dout = sh("ulimit -v 12000000; exec %s %s %s %s" % (exe, drv["mode"], os.path.join(work, "cases.txt"), os.path.join(work, "model.txt")),
+            rc, dout = sh("ulimit -v 12000000; ulimit -s unlimited 2>/dev/null || ulimit -s 1000000 2>/dev/null; exec %s %s %s %s" % (exe, drv["mode"], os.path.join(work, "cases.txt"), os.path.join(work, "model.txt")),
                           timeout=tmo)
             model_s = round(time.time() - tm, 1)
             if rc != 0:
